@@ -21,8 +21,9 @@ def fn_enum(prog, name):
     return EnumV(prog.src.variant_index('Function', name), {}, 'Function')
 
 
-def mk_query(prog, order, desc):
-    ext = lambda: E.expr_field(prog, 'Extension')
+def mk_query(prog, order, desc, fnkey=False):
+    ext = (lambda: E.mk_expr(prog, function=some(fn_enum(prog, 'Length')), left=some(BoxV(E.expr_field(prog, 'Name'))), args=some(Seq([])))) if fnkey \
+        else (lambda: E.expr_field(prog, 'Extension'))
     cnt = E.mk_expr(prog, function=some(fn_enum(prog, 'Count')), left=some(BoxV(E.expr_field(prog, 'Name'))), args=some(Seq([])))
     sm = E.mk_expr(prog, function=some(fn_enum(prog, 'Sum')), left=some(BoxV(E.expr_field(prog, 'Size'))), args=some(Seq([])))
     fields = [ext(), cnt, sm]
@@ -31,6 +32,8 @@ def mk_query(prog, order, desc):
         ordering = [ext()]
     elif order == 'count':
         ordering = [deep_clone(None, cnt)] if False else [E.mk_expr(prog, function=some(fn_enum(prog, 'Count')), left=some(BoxV(E.expr_field(prog, 'Name'))), args=some(Seq([])))]
+    elif order == 'sum':
+        ordering = [E.mk_expr(prog, function=some(fn_enum(prog, 'Sum')), left=some(BoxV(E.expr_field(prog, 'Size'))), args=some(Seq([])))]
     return E.mk_struct(prog, 'Query', {}, fields=Seq(fields), roots=Seq([]), expr=none(),
                        grouping_fields=RcV(Seq([ext()])), ordering_fields=RcV(Seq(ordering)),
                        ordering_asc=RcV(Seq([BoolVal(not desc)] if ordering else [])),
@@ -70,7 +73,7 @@ def cli_replay(rows_spec, order, desc):
             tree['f%d%s' % (i, ('.' + k) if k else '')] = {'size': sz}
         argv = ['ext,', 'count(name),', 'sum(size)', 'from', '.', 'group', 'by', 'ext']
         if order:
-            argv += ['order', 'by', 'ext' if order == 'key' else 'count(name)'] + (['desc'] if desc else [])
+            argv += ['order', 'by', {'key': 'ext', 'count': 'count(name)', 'sum': 'sum(size)'}[order]] + (['desc'] if desc else [])
         r = common.run_cli(exe, argv, tree)
         got = [tuple(l.split('\t')) for l in r['stdout'].split('\n')[:-1]]
         exp = {}
@@ -80,7 +83,7 @@ def cli_replay(rows_spec, order, desc):
         bad = sorted(got) != sorted(want) or r['status'] != 0
         det = 'fselect %s over %r -> %r ; expected rows %r (status %s, stderr %r)' % (' '.join(argv), rows_spec, got, sorted(want), r['status'], r['stderr'][:200])
         if not bad and order:
-            idx = 0 if order == 'key' else 1
+            idx = {'key': 0, 'count': 1, 'sum': 2}[order]
             col = [g[idx] for g in got]
             keyf = (lambda x: x) if order == 'key' else (lambda x: int(x))
             srt = sorted(col, key=keyf, reverse=desc)
@@ -158,6 +161,25 @@ def fam_parse_group_by(sess):
             sess.inconclusive(name, 'keys not covered: %r' % sorted(set(keys) - set(box['seen'])), fam)
 
 
+def cli_replay_fnkey(rows_spec):
+    """group by length(name): files whose names have the lengths of the witness keys"""
+    def rep():
+        exe = common.native_binary()
+        tree = {}
+        exp = {}
+        for i, (k, sz) in enumerate(rows_spec):
+            ln = int(k) if k else 3
+            name = ('%d' % i).ljust(ln, 'x')
+            tree[name] = {'size': sz}
+            c, s_ = exp.get(str(ln), (0, 0)); exp[str(ln)] = (c + 1, s_ + sz)
+        argv = ['length(name), count(name), sum(size) from . group by length(name)']
+        r = common.run_cli(exe, argv, tree)
+        got = sorted(tuple(l.split('\t')) for l in r['stdout'].split('\n')[:-1])
+        want = sorted((k, str(c), str(s_)) for k, (c, s_) in exp.items())
+        return got != want or r['status'] != 0, 'fselect %s over %r -> %r ; expected %r (status %s)' % (argv[0], sorted(tree), got, want, r['status'])
+    return rep
+
+
 def main(sess):
     fam_parse_group_by(sess)
     prog = sess.prog
@@ -169,28 +191,33 @@ def main(sess):
         'ResultsWriter::write_row is summarised (captures the row); formats are C09',
     ]
     N = 3 if sess.tier == 'quick' else 4
-    sess.bounds['grouped'] = {'rows': '0..%d' % N, 'group key values': KEYS, 'sizes': '< 2^16 symbolic', 'order by': 'none | key asc/desc | count asc/desc'}
+    sess.bounds['grouped'] = {'rows': '0..%d' % N, 'group key values': KEYS, 'sizes': '< 2^16 symbolic', 'order by': 'none | key asc/desc | count asc/desc | sum asc/desc'}
     lsr = prog.find('Searcher', 'list_search_results')
     new = prog.find('Searcher', 'new')
     Fs = E.struct_fields(prog, 'Searcher')
-    for order, desc in [(None, False), ('key', False), ('key', True), ('count', False), ('count', True)]:
-        fam = 'grouped/' + (('order by %s %s' % (order, 'desc' if desc else 'asc')) if order else 'unordered')
+    for order, desc, fnkey in [(None, False, False), ('key', False, False), ('key', True, False), ('count', False, False), ('count', True, False),
+                               ('sum', False, False), ('sum', True, False), (None, False, True)]:
+        fam = 'grouped/' + (('order by %s %s' % (order, 'desc' if desc else 'asc')) if order else 'unordered') + (' (key length(name))' if fnkey else '')
         ex = sess.executor(overrides(), unwind=3 * N + 8, maxsteps=400000)
         box = {}
         for n in range(0, N + 1):
-            def run(ctx, n=n, order=order, desc=desc):
-                q = mk_query(prog, order, desc)
+            def run(ctx, n=n, order=order, desc=desc, fnkey=fnkey):
+                q = mk_query(prog, order, desc, fnkey)
+                from mirsym.models_fmt import render_value
+                gexpr = q.f[E.struct_fields(prog, 'Query').index('grouping_fields')].cell.v.items[0].v
+                keycol = render_value(ctx, Ref(Cell(gexpr)), 'display', 'Expr').s if fnkey else 'Extension'
+                keyvals = ['', '1', '22'] if fnkey else KEYS
                 cfg = W.mk_config(prog)
                 s = ctx.call_fn(new, [Ref(Cell(q)), Ref(Cell(cfg)), Ref(Cell(deep_clone(ctx, cfg))), BoolVal(False)])
                 rows = []; info = []
                 for i in range(n):
                     kv = ctx.fresh_bv('key%d' % i, 8)
-                    ctx.assume(ULT(kv, BitVecVal(len(KEYS), 8)))
-                    k = KEYS[ctx.concretize(kv, range(len(KEYS)))]
+                    ctx.assume(ULT(kv, BitVecVal(len(keyvals), 8)))
+                    k = keyvals[ctx.concretize(kv, range(len(keyvals)))]
                     sz = ctx.fresh_bv('size%d' % i, 64); ctx.assume(ULT(sz, BitVecVal(1 << 16, 64)))
                     m = Map('HashMap')
                     if k != '' or ctx.decide(ctx.fresh_bool('present%d' % i)):
-                        m.insert(ctx, Str('Extension'), Str(k))
+                        m.insert(ctx, Str(keycol), Str(k))
                     m.insert(ctx, Str('Size'), NumStr(sz, False))
                     m.insert(ctx, Str('Name'), Str('n%d' % i))
                     rows.append(m); info.append((k, sz))
@@ -200,7 +227,7 @@ def main(sess):
                 res = ctx.call_fn(lsr, [Ref(cell)])
                 return info, res
 
-            def on_path(ctx, out, n=n, order=order, desc=desc, fam=fam):
+            def on_path(ctx, out, n=n, order=order, desc=desc, fam=fam, fnkey=fnkey):
                 name = '%s, %d rows' % (fam, n)
                 if out[0] != 'ret':
                     if out[0] == 'panic':
@@ -246,6 +273,10 @@ def main(sess):
                     elif order == 'count':
                         cs = [exp[k][0] for k in gotkeys]
                         conds.append(BoolVal(cs == sorted(cs, reverse=desc)))
+                    elif order == 'sum':
+                        ss = [exp[k][1] for k in gotkeys]      # multi-digit, symbolic: text order and numeric order differ
+                        for x, y in zip(ss, ss[1:]):
+                            conds.append(z3.UGE(x, y) if desc else z3.ULE(x, y))
                 else:
                     conds.append(BoolVal(False))
                 r = ctx.check(Not(And(conds))) if conds else z3.unsat
@@ -261,8 +292,10 @@ def main(sess):
                 shown = [[(str(a), str(b)) for a, b in row] for row in got]
                 role = 'grouped/' + ('order' if (struct_ok and sorted(gotkeys) == sorted(exp) and order) else 'partition')
                 sess.violated(name, role, 'rows %r -> group rows %r' % (spec, shown), {'rows': spec, 'order': order, 'desc': desc},
-                              cli_replay(spec, order, desc), fam)
+                              cli_replay_fnkey(spec) if fnkey else cli_replay(spec, order, desc), fam)
             ex.explore(run, on_path, time_budget=120 if sess.tier == 'quick' else 900)
         if not box.get('viol') and not box.get('bad'):
             sess.discharged('%s: 0..%d rows, every key assignment: one row per distinct key, COUNT and SUM of the block%s' % (fam, N, ', sorted' if order else ''),
                             family=fam, queries=box.get('paths', 1))
+    from drivers import e2e
+    e2e.family_for(sess, 'C08')
